@@ -160,6 +160,29 @@ impl Torrent {
         Ok(())
     }
 
+    /// What an interrupted earlier run may leave behind: piece files of the right name and length whose content is
+    /// damaged (torn write: the tail is zeroed). Which pieces get one is drawn from `seed`; returns (file name, content) of each.
+    pub fn write_damaged_leftovers(&self, seed: u64) -> Vec<(String, Vec<u8>)> {
+        let mut x = seed.wrapping_mul(0x9E37_79B9_7F4A_7C15) | 1;
+        let mut v = vec![];
+        for i in 0..self.geo.pieces_num() {
+            x ^= x << 13;
+            x ^= x >> 7;
+            x ^= x << 17;
+            if x % 3 != 0 {
+                let mut d = self.piece(i).to_vec();
+                let from = d.len() / 2;
+                for b in d[from..].iter_mut() {
+                    *b = if *b == 0 { 1 } else { 0 };
+                }
+                if std::fs::write(self.piece_file_name(i), &d).is_ok() {
+                    v.push((self.piece_file_name(i), d));
+                }
+            }
+        }
+        v
+    }
+
     /// File offsets in the concatenated content: (path as the torrent names it, start, len)
     pub fn file_spans(&self) -> Vec<(String, usize, usize)> {
         let mut pos = 0;
